@@ -182,6 +182,11 @@ def lbStep (s : DState) : List String → DState × String
       | "strategy", [name] =>
         let r := LB.setStrategy y name
         ({ s with lb := some r.1 }, if r.2 then "ok" else "err")
+      | "rrseek", [k] =>
+        -- the rotation counter after k more picks (a history of billions of requests, not replayed one by one)
+        match k.toNat? with
+        | some k => (if y.kind == .rr then { s with lb := some { y with cur := (y.cur + k) % LB.two64 } } else s, "ok")
+        | none => (s, "bad-op")
       | "pickconc", [now, _workers, _k] =>
         -- `dispatch_complete`: a pick comes back empty only if every backend is inside its window
         match now.toNat? with
@@ -713,6 +718,12 @@ def step (s : DState) (line : String) : DState × String :=
   | ["startup", level] => (s, "config-unchanged level=" ++ (if level == "-" then "info" else level))
   -- loading keeps every string value as the file has it: the expected values travel with the op
   | ["cfgval", _path, expect] => (s, " ".intercalate (expect.splitOn ";"))
+  -- loading is reading + decoding + validating: `validate` returns a verdict, never a changed configuration
+  | ["cfgfid", _path] => (s, "same")
+  -- `affinity` / `hash_stateless`: under the hash strategies the pick is a function of the attributed client
+  -- address and the pool; source ports, other headers and the layers in front of the balancer play no part
+  | ["aff", strat, _nb, _ids, _pl, _n] =>
+    (s, if strat == "ip_hash" || strat == "ip_hash_consistent" then "aff direct=1 direct6=1 xff=1 real=1" else "bad-op")
   | ["srvwire", r, w, i] =>
     match r.toInt?, w.toInt?, i.toInt? with
     | some r, some w, some i =>
